@@ -169,6 +169,24 @@ fn run(case: &Case, cx: &mut Cx) -> CaseResult {
         for e in edits {
             crate::history::apply_edit(&mut t1, e);
         }
+        // Half of the time a directory that has content becomes a file or a symlink: if the
+        // interrupted version got as far as recording it, the version holds that entry AND,
+        // from the older version, what used to be below it.
+        if *k % 2 == 0 {
+            let with_content: Vec<String> = t1
+                .dirs()
+                .into_iter()
+                .filter(|d| d != "/" && t1.0.keys().any(|p| tree::parent_of(p) == Some(d.as_str())))
+                .collect();
+            if !with_content.is_empty() {
+                let d = with_content[(*k as usize / 2) % with_content.len()].clone();
+                let meta = t1.0[&d].meta;
+                t1.remove_subtree(&d);
+                let kind = if *k % 4 == 0 { tree::Kind::File { pool: 3, len: 17 } } else { tree::Kind::Link { target: "elsewhere".into() } };
+                t1.0.insert(d, tree::Node { kind, meta });
+                cx.label("directory-with-content-became-file-or-link");
+            }
+        }
         tree::rematerialise(&case.tree, &t1, &src);
         let ctl = crate::hooks::Ctl::new(&arch, crate::hooks::Plan::FreezeAtMutating { k: *k as usize + 4, torn: false });
         let hook: ops::Hook = Some(ctl.clone() as std::sync::Arc<dyn conserve::transport::verif::Interceptor>);
